@@ -1,0 +1,9 @@
+//go:build verif
+
+package rsql
+
+// Accessors for the verification harness (build tag verif only; no behaviour of their own).
+
+// VerifReadPreviousIdentifier exposes Lexer.readPreviousIdentifier: the run of letters that ends at
+// the lexer's current position (the parser uses it to recognise the keyword that ended a clause).
+func (l *Lexer) VerifReadPreviousIdentifier() string { return l.readPreviousIdentifier() }
